@@ -401,6 +401,16 @@ func (l *listSet) At() storage.Series              { return l.s[l.i-1] }
 func (*listSet) Err() error                        { return nil }
 func (*listSet) Warnings() annotations.Annotations { return nil }
 
+type listChunkSet struct {
+	s []storage.ChunkSeries
+	i int
+}
+
+func (l *listChunkSet) Next() bool                      { l.i++; return l.i <= len(l.s) }
+func (l *listChunkSet) At() storage.ChunkSeries         { return l.s[l.i-1] }
+func (*listChunkSet) Err() error                        { return nil }
+func (*listChunkSet) Warnings() annotations.Annotations { return nil }
+
 // ---------------------------------------------------------------- case kinds
 
 type chainDesc struct {
@@ -690,6 +700,14 @@ func (h *H) chunksCase(its [][]Chk, compacting bool, corpus string) {
 
 // counterFH: all samples are float histograms (K = 3) encoded as counter histograms.
 func (h *H) chunksCaseOpt(its [][]Chk, compacting bool, corpus string, counterFH bool) {
+	h.chunksCaseFull(its, compacting, corpus, counterFH, false, nil)
+}
+
+// viaSet: the same inputs go through NewMergeChunkSeriesSet (one chunk series set per input,
+// compacting merger) instead of the bare merger function, and additionally — as a companion
+// KChain case — through the SAMPLE series sets of the same inputs
+// (NewMergeSeriesSet over NewSeriesSetFromChunkSeriesSet(...), ChainedSeriesMerge), driven by script.
+func (h *H) chunksCaseFull(its [][]Chk, compacting bool, corpus string, counterFH, viaSet bool, script []Op) {
 	series := make([]storage.ChunkSeries, len(its))
 	for i, l := range its {
 		metas := make([]chunks.Meta, len(l))
@@ -722,6 +740,32 @@ func (h *H) chunksCaseOpt(its [][]Chk, compacting bool, corpus string, counterFH
 		}()
 		var merged storage.ChunkSeries
 		if len(series) == 0 {
+			return
+		}
+		if compacting && viaSet {
+			sets := make([]storage.ChunkSeriesSet, len(series))
+			for i, cs := range series {
+				sets[i] = &listChunkSet{s: []storage.ChunkSeries{cs}}
+			}
+			ms := storage.NewMergeChunkSeriesSet(sets, 0, storage.NewCompactingChunkSeriesMerger(storage.ChainedSeriesMerge))
+			n := 0
+			for ms.Next() {
+				n++
+				it := ms.At().Iterator(nil)
+				for it.Next() {
+					out = append(out, decodeChunk(it.At()))
+				}
+				if it.Err() != nil {
+					errS = it.Err().Error()
+				}
+			}
+			if ms.Err() != nil {
+				errS = ms.Err().Error()
+			}
+			if n != 1 {
+				errS = fmt.Sprintf("merged chunk series set returned %d series for one label set", n)
+			}
+			h.meta.Hit("chunks-via-merge-chunk-series-set")
 			return
 		}
 		if compacting {
@@ -786,7 +830,41 @@ func (h *H) chunksCaseOpt(its [][]Chk, compacting bool, corpus string, counterFH
 		h.meta.Hit("chunks-counter-reset-float-histograms")
 	}
 	term := fmt.Sprintf("KChunks %s %s %s %s", gallina.Bool(compacting), gallina.Bool(!counterFH), gallina.List(gits), obs)
-	h.emit(term, chunksDesc{"chunks", compacting, its, out, errS, shape, corpus}, "chunks"+fmt.Sprint(its, compacting, counterFH), compacting && len(its) >= 2 && len(out) != nin)
+	h.emit(term, chunksDesc{"chunks", compacting, its, out, errS, shape, corpus}, "chunks"+fmt.Sprint(its, compacting, counterFH, viaSet), compacting && len(its) >= 2 && len(out) != nin)
+	if viaSet && len(series) > 0 {
+		// the sample series sets of the same inputs
+		ssets := make([]storage.SeriesSet, len(series))
+		inputs := make([][]S, len(its))
+		for i, cs := range series {
+			ssets[i] = storage.NewSeriesSetFromChunkSeriesSet(&listChunkSet{s: []storage.ChunkSeries{cs}})
+			for _, c := range its[i] {
+				inputs[i] = append(inputs[i], c.S...)
+			}
+		}
+		ms := storage.NewMergeSeriesSet(ssets, 0, storage.ChainedSeriesMerge)
+		if !ms.Next() {
+			panic("merged sample series set is empty")
+		}
+		// Chunk-backed inputs: an exhausted XOR/histogram chunk iterator answers a later Seek(t) with
+		// t <= its last timestamp by showing its last sample again (chunkenc, outside C19's anchors;
+		// see notes), so the script stops at the first ValNone — callers do not use an iterator after it.
+		cit := ms.At().Iterator(nil)
+		var obs []Ob
+		for k, o := range script {
+			ob := runOp(cit, o)
+			obs = append(obs, ob)
+			if ob.Kind != "sample" {
+				script = script[:k+1]
+				break
+			}
+		}
+		if ms.Next() || ms.Err() != nil {
+			panic("merged sample series set: more than one series or error")
+		}
+		h.meta.Hit("chain-from-chunk-series-sets")
+		cterm := fmt.Sprintf("KChain %s %s %s", gSLL(inputs), gOps(script), gObs(obs))
+		h.emit(cterm, chainDesc{"chain-from-chunks", inputs, script, obs, "chain-from-chunk-series-sets", corpus}, "chainfromchunks"+fmt.Sprint(inputs, script), len(inputs) >= 2)
+	}
 }
 
 // ---------------------------------------------------------------- chunk generators
@@ -814,6 +892,102 @@ func genChunkIter(r *gen.Rand, start int64, nchunks int, mixed bool, big bool) [
 		t += int64(r.Intn(4))
 	}
 	return l
+}
+
+// chunk with the given bounds and some interior samples
+func spanChk(r *gen.Rand, lo, hi int64, k int) Chk {
+	set := map[int64]bool{lo: true, hi: true}
+	for i := 0; i < 3 && hi-lo > 1; i++ {
+		if r.Chance(2, 3) {
+			set[r.Range(lo+1, hi-1)] = true
+		}
+	}
+	var ts []int64
+	for t := range set {
+		ts = append(ts, t)
+	}
+	sort.Slice(ts, func(i, j int) bool { return ts[i] < ts[j] })
+	ss := make([]S, len(ts))
+	for i, t := range ts {
+		ss[i] = S{T: t, K: k, V: int64(r.Intn(4))}
+	}
+	return mkChk(ss)
+}
+
+// random disjoint, ordered chunks over [lo,hi] (consecutive pairs of sorted random points;
+// equal points give one-sample chunks; different inputs touch at equal timestamps often)
+func genSpans(r *gen.Rand, lo, hi int64, maxChunks int, k int) []Chk {
+	n := 2 * (1 + r.Intn(maxChunks))
+	set := map[int64]bool{}
+	for i := 0; i < n; i++ {
+		set[r.Range(lo, hi)] = true
+	}
+	var ps []int64
+	for t := range set {
+		ps = append(ps, t)
+	}
+	sort.Slice(ps, func(i, j int) bool { return ps[i] < ps[j] })
+	var l []Chk
+	for i := 0; i < len(ps); i += 2 {
+		if i+1 < len(ps) && r.Chance(4, 5) {
+			l = append(l, spanChk(r, ps[i], ps[i+1], k))
+		} else {
+			l = append(l, spanChk(r, ps[i], ps[i], k))
+			i--
+		}
+	}
+	return l
+}
+
+// genNested: 3-5 inputs of one series with containment: a long chunk L, successive chunks nested
+// inside it (N1 in one input, N2 from another input overlapping N1 and ending later but inside L,
+// optionally N3 nested in N2), a tail chunk T starting after the nested ones but not after L's end
+// (or touching it), plus free inputs.
+func genNested(r *gen.Rand) [][]Chk {
+	n := 3 + r.Intn(3)
+	its := make([][]Chk, n)
+	k := 1
+	a := int64(r.Intn(5))
+	b := a + 12 + int64(r.Intn(12)) // L = [a,b]
+	its[0] = []Chk{spanChk(r, a, b, k)}
+	n1lo := a + 1 + int64(r.Intn(4))
+	n1hi := n1lo + int64(r.Intn(4))
+	n2lo := n1lo + int64(r.Intn(int(n1hi-n1lo)+1)) // overlaps N1 (or touches its end)
+	n2hi := n1hi + 1 + int64(r.Intn(3))
+	if n2hi >= b {
+		n2hi = b - 1
+	}
+	if n2hi < n2lo {
+		n2lo = n2hi
+	}
+	its[1] = []Chk{spanChk(r, n1lo, n1hi, k)}
+	its[2] = []Chk{spanChk(r, n2lo, n2hi, k)}
+	// tail chunk: after everything nested so far, starting inside L's tail / at its end / just after
+	tlo := n2hi + 1 + int64(r.Intn(int(b-n2hi)+1))
+	if tlo > n1hi {
+		who := 1 + r.Intn(2)
+		last := its[who][len(its[who])-1]
+		if tlo > last.Max {
+			its[who] = append(its[who], spanChk(r, tlo, tlo+int64(r.Intn(8)), k))
+		}
+	}
+	if r.Chance(1, 2) && n2hi-n2lo >= 2 && n > 3 { // nested in nested
+		its[3] = []Chk{spanChk(r, n2lo+1, n2hi-1, k)}
+	}
+	if r.Chance(1, 3) { // L continues: a chunk touching / following L in input 0
+		its[0] = append(its[0], spanChk(r, b+1+int64(r.Intn(2)), b+4+int64(r.Intn(4)), k))
+	}
+	for j := 3; j < n; j++ {
+		if its[j] == nil {
+			its[j] = genSpans(r, a-2, b+8, 3, k)
+		}
+	}
+	// shuffle the inputs (heap insertion order)
+	for i := n - 1; i > 0; i-- {
+		j := r.Intn(i + 1)
+		its[i], its[j] = its[j], its[i]
+	}
+	return its
 }
 
 func cloneIter(l []Chk) []Chk {
@@ -889,6 +1063,13 @@ func main() {
 		h.chunksCaseOpt([][]Chk{{fh(0, 10, 10, 20, 20, 30)}, {fh(5, 1, 15, 2)}}, true, "fh-counter-reset-inside-overlap", true)
 		h.chunksCaseOpt([][]Chk{{fh(0, 10, 10, 20), fh(30, 40, 40, 50)}, {fh(5, 1, 35, 2)}, {fh(7, 3, 50, 60)}}, true, "fh-counter-reset-two-overlaps", true)
 		h.chunksCase(nil, true, "no-series")
+		sp := func(ts ...int64) Chk { return mkChk(fl(ts...)) }
+		// a later chunk overlaps only the TAIL of a long chunk that contains two successive nested chunks
+		nested := [][]Chk{{sp(2, 8, 14, 18, 20)}, {sp(10, 15), sp(19, 22, 25)}, {sp(12, 18)}}
+		h.chunksCaseFull(nested, true, "tail-overlap-after-nested-chunks", false, false, nil)
+		h.chunksCaseFull(nested, true, "tail-overlap-after-nested-chunks-sets", false, true, drain(12))
+		h.chunksCaseFull([][]Chk{{sp(0, 30)}, {sp(5, 6), sp(8, 9), sp(29, 31)}, {sp(6, 8), sp(10, 12)}, {sp(9, 10), sp(30, 40)}}, true, "successive-nested-touching", false, true, drain(16))
+		h.chunksCaseFull([][]Chk{{sp(0, 10, 20)}, {sp(2, 18)}, {sp(4, 16)}, {sp(6, 8), sp(17, 19), sp(20, 21)}}, true, "nested-in-nested-then-tail", false, true, []Op{{}, {Seek: true, T: 17}, {}, {}, {}, {}, {}})
 	}
 
 	// ---------------- generated
@@ -1043,6 +1224,37 @@ func main() {
 		h.chunksCase(its, !r.Chance(1, 8), "")
 	}
 	base += nChunks
+	nNest := f.Count(60, 2500)
+	for i := 0; i < nNest; i++ {
+		r := gen.Fork(f.Seed, base+i)
+		var its [][]Chk
+		if r.Chance(2, 3) {
+			its = genNested(r)
+		} else { // free layouts over a small domain: containment, touching and tail overlaps by chance
+			n := 3 + r.Intn(3)
+			its = make([][]Chk, n)
+			for j := range its {
+				its[j] = genSpans(r, 0, 24, 3, 1+r.Intn(2)*r.Intn(2))
+			}
+			if r.Chance(1, 2) {
+				its[0] = []Chk{spanChk(r, 0, 20+int64(r.Intn(5)), 1)}
+			}
+		}
+		meta.Hit(fmt.Sprintf("chunks-nested-n%d", len(its)))
+		viaSet := r.Chance(1, 2)
+		var all [][]S
+		for _, l := range its {
+			for _, c := range l {
+				all = append(all, c.S)
+			}
+		}
+		script := drain(len(union(all)) + 1)
+		if r.Chance(1, 4) {
+			script = genScript(r, tsDom{lo: 0, hi: 30}, 6+r.Intn(8), 35)
+		}
+		h.chunksCaseFull(its, true, "", false, viaSet, script)
+	}
+	base += nNest
 	nFH := f.Count(25, 800)
 	for i := 0; i < nFH; i++ {
 		r := gen.Fork(f.Seed, base+i)
